@@ -1,25 +1,29 @@
 #!/usr/bin/env python3
-"""tools/mut.py <patch.diff> <Cxx> [<Cyy> ...] [--tier t]: apply a seeded change to /repo, run the named checks,
-print their verdicts, and ALWAYS undo the change (git -C /repo checkout -- .)."""
-import subprocess, sys, os
+"""tools/mut.py <patch.diff> <Cxx> [<Cyy> ...] [--tier t]
+Apply a seeded change to a scratch COPY of /repo's working tree (so /repo itself is never touched and other checks can
+run meanwhile), run the named checks against it (VERIF_REPO), print their verdicts, remove the copy."""
+import subprocess, sys, os, shutil
 args = sys.argv[1:]
 tier = 'quick'
 if '--tier' in args:
     i = args.index('--tier'); tier = args[i + 1]; del args[i:i + 2]
-patch, props = args[0], args[1:]
+patch, props = os.path.abspath(args[0]), args[1:]
 here = os.path.dirname(os.path.dirname(os.path.abspath(__file__)))
-st = subprocess.run(['git', '-C', '/repo', 'status', '--porcelain', '--untracked-files=no'], capture_output=True, text=True).stdout.strip()
-if st:
-    sys.exit('refusing: /repo has uncommitted changes:\n' + st)
-r = subprocess.run(['git', '-C', '/repo', 'apply', os.path.abspath(patch)])
-if r.returncode:
-    sys.exit('patch does not apply')
+d = '/var/tmp/ga-mut.%d' % os.getpid()
+shutil.rmtree(d, ignore_errors=True)
+subprocess.run(['rsync', '-a', '--exclude', '/target', '--exclude', '/.git', '/repo/', d + '/'], check=True)
 try:
+    r = subprocess.run(['git', 'apply', '--unsafe-paths', '--directory', d, patch], cwd='/')
+    if r.returncode:
+        r = subprocess.run(['patch', '-p1', '-i', patch], cwd=d)
+        if r.returncode:
+            sys.exit('patch does not apply')
+    env = dict(os.environ, VERIF_REPO=d, VERIF_NO_EVIDENCE='1')
     for p in props:
-        r = subprocess.run([os.path.join(here, 'check'), p, '--tier', tier], capture_output=True, text=True, cwd=here)
+        r = subprocess.run([os.path.join(here, 'check'), p, '--tier', tier], capture_output=True, text=True, cwd=here, env=env)
         lines = [l for l in r.stdout.splitlines() if l.startswith(('VIOLATION', 'UNDECIDED', 'OK', 'KNOWN', '  failed'))]
-        print('%s exit=%d' % (p, r.returncode))
-        for l in lines[:12]:
-            print('   ', l[:300])
+        print('%s %s exit=%d' % (os.path.relpath(patch, '/tmp/mut'), p, r.returncode), flush=True)
+        for l in lines[:8]:
+            print('   ', l[:260], flush=True)
 finally:
-    subprocess.run(['git', '-C', '/repo', 'checkout', '--', '.'])
+    shutil.rmtree(d, ignore_errors=True)
